@@ -230,8 +230,10 @@ class RefDC:
         except Exception:  # noqa: BLE001
             return E_INVALIDARG, None
         entry["mask"] = mask
-        if "reply_position" in self.byz:  # Byzantine: answer for another position
-            pos = tuple(self.byz["reply_position"])
+        if "reply_position" in self.byz:  # Byzantine: answer for another position (optionally only the first n replies)
+            self._repositioned = getattr(self, "_repositioned", 0) + 1
+            if self.byz.get("reply_position_first_n") is None or self._repositioned <= self.byz["reply_position_first_n"]:
+                pos = tuple(self.byz["reply_position"])
         entry["position"] = pos
         chain = cms.chain_for(rk, sd, pos[0])
         base = {"version": 1, "l0": pos[0], "l1": pos[1], "l2": pos[2], "root_key_id": rk.root_key_id,
